@@ -33,20 +33,19 @@ func (h *Sources) Save() {
 		return
 	}
 
-	// When the line is identical to the previous undo, we just update
-	// the cursor position if it's a different one.
-	if len(line.items) > 0 && line.items[len(line.items)-1].line == string(*h.line) {
-		line.items[len(line.items)-1].pos = h.cursor.Pos()
+	// When the line is identical to the state being shown, there is no
+	// new state: we just update the cursor position of the newest one.
+	if shown := line.shown(); shown != nil && shown.line == string(*h.line) {
+		if line.pos == 0 {
+			shown.pos = h.cursor.Pos()
+		}
+
 		return
 	}
 
-	// When we add an item to the undo history, the history
-	// is cut from the current undo hist position onwards.
-	if line.pos > len(line.items) {
-		line.pos = len(line.items)
-	}
-
-	line.items = line.items[:len(line.items)-line.pos]
+	// When we add an item to the undo history, the
+	// states that were undone (if any) are dropped.
+	line.truncate()
 
 	// Make a copy of the cursor and ensure its position.
 	cur := core.NewCursor(h.line)
@@ -58,6 +57,29 @@ func (h *Sources) Save() {
 		line: string(*h.line),
 		pos:  cur.Pos(),
 	})
+}
+
+// shown returns the saved state that the line is currently showing (or has
+// been modified from): the newest one, or an older one after some undos.
+func (l *lineHistory) shown() *undoItem {
+	if len(l.items) == 0 {
+		return nil
+	}
+
+	if l.pos < 0 || l.pos > len(l.items)-1 {
+		l.pos = 0
+	}
+
+	return &l.items[len(l.items)-1-l.pos]
+}
+
+// truncate drops the states that have been undone.
+func (l *lineHistory) truncate() {
+	if l.shown() != nil {
+		l.items = l.items[:len(l.items)-l.pos]
+	}
+
+	l.pos = 0
 }
 
 // SkipSave will not save the current line when the target command is done
@@ -79,7 +101,6 @@ func (h *Sources) SaveWithCommand(bind inputrc.Bind) {
 // Undo restores the line and cursor position to their last saved state.
 func (h *Sources) Undo() {
 	h.skip = true
-	h.undoing = true
 
 	// Get the undo states for the current line.
 	line := h.getLineHistory()
@@ -89,34 +110,22 @@ func (h *Sources) Undo() {
 
 	// The state being left might not have been saved yet (consecutive
 	// insertions are saved lazily): keep it, so that redo can restore it.
-	if line.pos == 0 && line.items[len(line.items)-1].line != string(*h.line) {
+	if line.shown().line != string(*h.line) {
+		line.truncate()
 		line.items = append(line.items, undoItem{
 			line: string(*h.line),
 			pos:  h.cursor.Pos(),
 		})
 	}
 
-	var undo undoItem
-
-	// When undoing, we loop through preceding undo items
-	// as long as they are identical to the current line.
-	for {
-		line.pos++
-
-		// Exit if we reached the end.
-		if line.pos > len(line.items) {
-			line.pos = len(line.items)
-			return
-		}
-
-		// Break as soon as we find a non-matching line.
-		undo = line.items[len(line.items)-line.pos]
-		if undo.line != string(*h.line) {
-			break
-		}
+	// Nothing (more) to undo: we are on the initial state.
+	if line.pos >= len(line.items)-1 {
+		return
 	}
 
-	// Use the undo we found
+	line.pos++
+
+	undo := line.shown()
 	h.line.Set([]rune(undo.line)...)
 	h.cursor.Set(undo.pos)
 }
@@ -138,31 +147,30 @@ func (h *Sources) Revert() {
 
 	// And reset everything
 	line.items = make([]undoItem, 0)
+	line.pos = 0
 
 	h.Reset()
 }
 
-// Redo cancels an undo action if any has been made, or if
-// at the begin of the undo history, restores the original
-// line's contents as their were before starting undoing.
+// Redo cancels an undo action if any has been made: it restores
+// the line's contents as they were before the last undo.
 func (h *Sources) Redo() {
 	h.skip = true
-	h.undoing = true
 
 	line := h.getLineHistory()
 	if line == nil || len(line.items) == 0 {
 		return
 	}
 
-	line.pos--
-
-	if line.pos < 1 {
-		// Nothing (more) to redo: never go below the most recent state.
-		line.pos = 0
+	// Nothing (more) to redo, or the line has been
+	// modified since the last undo: the redo branch is gone.
+	if line.pos == 0 || line.shown().line != string(*h.line) {
 		return
 	}
 
-	undo := line.items[len(line.items)-line.pos]
+	line.pos--
+
+	undo := line.shown()
 	h.line.Set([]rune(undo.line)...)
 	h.cursor.Set(undo.pos)
 }
@@ -172,8 +180,8 @@ func (h *Sources) Last() inputrc.Bind {
 	return h.last
 }
 
-// Pos returns the current position in the undo history, which is
-// equal to its length minus the number of previous undo calls.
+// Pos returns the current position in the undo history,
+// which is the number of states that can be redone.
 func (h *Sources) Pos() int {
 	lh := h.getLineHistory()
 	if lh == nil {
@@ -183,21 +191,10 @@ func (h *Sources) Pos() int {
 	return lh.pos
 }
 
-// Reset will reset the current position in the list
-// of undo items, but will not delete any of them.
+// Reset reactivates the saving of undo states,
+// without deleting or moving through any of them.
 func (h *Sources) Reset() {
 	h.skip = false
-
-	line := h.getLineHistory()
-	if line == nil {
-		return
-	}
-
-	if !h.undoing {
-		line.pos = 0
-	}
-
-	h.undoing = false
 }
 
 // Always returns a non-nil map, whether or not a history source is found.
@@ -257,7 +254,7 @@ func (h *Sources) restoreLineBuffer() {
 		return
 	}
 
-	undo := lh.items[len(lh.items)-1]
+	undo := lh.shown()
 
 	// Restore the line to the last known state.
 	h.line.Set([]rune(undo.line)...)
